@@ -1,5 +1,9 @@
 //! C06 — applying the computed difference always reaches the target configuration.
 //!
+//! Two tiers, chosen per seed: the model tier below, and for one seed in `WORKER_ONE_IN` (plus the systematic pairs of
+//! `enumerated`) the worker tier of c06_net.rs: a real worker holding A receives diff(A,B) and is compared with B's
+//! projections and with a second worker given B directly (plan field `worker`).
+//!
 //! modelsim tier on `ConfigState::diff`. Pairs (A, B) of reachable configurations: A = result of history `a`;
 //! B = result of history `b` applied on top of A ("same history" pairs when `b` is the continuation of the
 //! history, "near" pairs when `b` is one targeted mutation: a listener's activation or one field, a frontend's
@@ -26,7 +30,21 @@ use crate::world::{SchedCfg, World};
 
 pub struct C06;
 
+/// one seed in `WORKER_ONE_IN` is a worker-tier plan (`{"worker": NetPlan}`, c06_net.rs); SIMK_C06_ONLY=worker|model
+/// restricts a batch to one tier (development / sensitivity runs)
+pub const WORKER_ONE_IN: u64 = 16;
+/// (thorough tier: one seed in 64, the histories are longer)
+pub fn is_worker_seed(seed: u64, tier: Tier) -> bool {
+    let n = match tier { Tier::Quick => WORKER_ONE_IN, Tier::Thorough => 4 * WORKER_ONE_IN };
+    match std::env::var("SIMK_C06_ONLY").as_deref() { Ok("worker") => true, Ok("model") => false, _ => (seed >> 9) % n == 0 }
+}
+fn worker_of(plan: &Value) -> Option<Result<super::c06_net::NetPlan, RunReport>> {
+    let t = plan.get("worker")?;
+    Some(serde_json::from_value(t.clone()).map_err(|e| RunReport { harness_error: Some(format!("bad worker plan: {e}")), ..Default::default() }))
+}
+
 pub fn generate(seed: u64, tier: Tier) -> Value {
+    if is_worker_seed(seed, tier) { return json!({"worker": super::c06_net::generate(seed, tier)}); }
     let mut rng = Prng::derive(seed, "c06/plan");
     let mut o = GenOpts::swarm(&mut rng);
     o.symbolic_certs = true;
@@ -149,8 +167,13 @@ fn run(a: Vec<Request>, b: Vec<Request>, on_a: bool, seed_a: u64, seed_b: u64) -
 impl Property for C06 {
     fn id(&self) -> &'static str { "C06" }
     fn runs(&self, tier: Tier) -> u64 { match tier { Tier::Quick => 60_000, Tier::Thorough => 1_500_000 } }
-    fn gen_plan(&self, seed: u64, tier: Tier) -> Value { generate(seed, tier) }
+    fn gen_plan(&self, seed: u64, tier: Tier) -> Value {
+        if let Some(p) = super::hubcfg::dispatch_gen("C06", seed, tier) { return p; } // hubcfg: main-process tier
+        generate(seed, tier)
+    }
     fn run_plan(&self, plan: &Value) -> RunReport {
+        if let Some(t) = worker_of(plan) { return match t { Ok(p) => super::c06_net::run_report(&p), Err(r) => r }; }
+        if let Some(r) = super::hubcfg::dispatch_run(plan) { return r; } // hubcfg
         let (a, b) = match (cfggen::ops_from_value(&plan["a"]), cfggen::ops_from_value(&plan["b"])) { (Ok(a), Ok(b)) => (a, b), (Err(e), _) | (_, Err(e)) => return RunReport { harness_error: Some(format!("bad plan: {e}")), ..Default::default() } };
         let on_a = plan["b_base"].as_str() != Some("empty");
         let summary = format!("A=[{}] B={}+[{}]", cfggen::summarize_ops(&a), if on_a { "A" } else { "empty" }, cfggen::summarize_ops(&b));
@@ -165,7 +188,13 @@ impl Property for C06 {
         rep.probes = o.probes;
         rep
     }
+    fn enumerated(&self, _tier: Tier) -> Vec<Value> {
+        if std::env::var("SIMK_C06_ONLY").as_deref() == Ok("model") { return vec![]; }
+        super::c06_net::systematic().into_iter().map(|p| json!({"worker": p})).collect()
+    }
     fn shrink(&self, plan: &Value) -> Vec<Value> {
+        if let Some(t) = worker_of(plan) { return match t { Ok(p) => super::c06_net::shrink(&p).into_iter().map(|q| json!({"worker": q})).collect(), Err(_) => vec![] }; }
+        if let Some(c) = super::hubcfg::dispatch_shrink(plan) { return c; } // hubcfg
         let mut out: Vec<Value> = Vec::new();
         for which in ["b", "a"] {
             out.extend(cfggen::shrink_ops(&plan[which]).into_iter().map(|ops| { let mut p = plan.clone(); p[which] = ops; p }));
@@ -173,6 +202,8 @@ impl Property for C06 {
         out
     }
     fn debug_plan(&self, plan: &Value) -> String {
+        if let Some(t) = worker_of(plan) { return match t { Ok(p) => super::c06_net::debug(&p), Err(r) => format!("{:?}", r.harness_error) }; }
+        if let Some(d) = super::hubcfg::dispatch_debug(plan) { return d; } // hubcfg
         let (Ok(a), Ok(b)) = (cfggen::ops_from_value(&plan["a"]), cfggen::ops_from_value(&plan["b"])) else { return "bad plan".into() };
         let on_a = plan["b_base"].as_str() != Some("empty");
         let (sa, sb, _) = build(&a, &b, on_a);
@@ -186,11 +217,11 @@ impl Property for C06 {
     fn descr(&self) -> Descr {
         Descr {
             level: "exploration",
-            rule: "seeded pairs of reachable configurations (same history / unrelated histories / near pairs: one targeted mutation); diff computed under one hash seed, applied under another, both directions; a run is non-trivial when the two configurations differ and the difference has >=1 request; distinct = distinct (configuration contents, diff sizes, per-request results) hashes",
-            assumptions: vec!["release semantics (debug assertions off: the debug-only replay check inside diff never runs)", "`request_counts` is not configuration", "an empty bucket equals an absent one; order inside a bucket is not configuration"],
-            real: vec!["ConfigState::{dispatch, diff}", "diff_map merge join, Backend ordering", "certificate parsing / fingerprinting"],
-            stub: vec!["clock", "entropy (HashMap / HashSet seeds)"],
-            not_covered: vec!["worker tier: a real worker holding A receiving diff(A,B) from the master stub (netsim configuration scenario)"],
+            rule: "two tiers, chosen per seed (1 seed in 16 is a worker-tier plan; plan field `worker`). MODEL TIER: seeded pairs of reachable configurations (same history / unrelated histories / near pairs: one targeted mutation); diff computed under one hash seed, applied under another, both directions; a run is non-trivial when the two configurations differ and the difference has >=1 request. WORKER TIER (c06_net.rs, observation code of c07_probe.rs): pairs over the worker-bootstrappable part of the configuration space (HTTP / HTTPS / TCP listeners, clusters with answer templates, frontends, backends, certificates): A = a valid base + 0-3 well-formed commands, B = A + 1 (near) / 1-6 (continuation) / 6-12 (far) further well-formed commands, both built by the master's ConfigState::dispatch; diff(A,B) computed on its own thread under its own hash seed. Worker 1 (real Server::run under the libc seam) is booted holding A - as its InitialState or by receiving A's bootstrap requests - and receives every request of the difference from the scripted master over a fragmented command stream, in groups of 1 / 3 / all; worker 2, a fresh worker under another seed in the same plan, receives B's own bootstrap requests. Oracle: every request of the difference is answered OK (unless worker 2 refuses the very same request); worker 1's QueryClustersHashes / QueryClusterById / QueryClustersByDomain / QueryCertificatesFromWorkers(fingerprint) answers equal B's hash_state / cluster_state / get_cluster_ids_by_domain / get_certificates (the master's code: agreement is judged); worker 1 and worker 2 give equal answers to every query (incl. the certificate listings of the live TLS resolvers) and equal results for every probe (10-20 fresh connections: per listener unknown host / cluster without backend / basic auth / routed hosts, certificate per SNI, TCP relay, addresses where nothing should listen). Keys are `symptom|features of the pair`, the features read from A and B as built from the plan; the changes that trigger recorded findings (a listener changed / (de)activated / added / removed, a cluster re-sent, a cluster's last backend removed, a certificate re-loaded under other names) are allowed one kind per plan, in half of the plans. Plus 7 systematic pairs on a fixed A (one per such kind, one harmless). Non-trivial (worker tier) when A and B differ and the difference has >=1 request. distinct = distinct hashes (model: configuration contents, diff sizes, per-request results; worker: both scheduler traces, answers, observations)",
+            assumptions: vec!["release semantics (debug assertions off: the debug-only replay check inside diff never runs)", "`request_counts` is not configuration", "an empty bucket equals an absent one; order inside a bucket is not configuration", "worker tier: which backend of a cluster answers, and whether a close arrives as FIN or RST, are not configuration; a TCP listener has at most one frontend (it relays to one cluster)"],
+            real: vec!["ConfigState::{dispatch, diff}", "diff_map merge join, Backend ordering", "certificate parsing / fingerprinting", "worker tier: ConfigState::produce_initial_state, sozu_lib::server::Server (bootstrap from InitialState, notify_proxys, listener (de)activation), HttpProxy / HttpsProxy / TcpProxy command handlers, HttpAnswers, router, CertificateResolver + rustls handshakes, mux H1 sessions, the worker side of the command channel"],
+            stub: vec!["clock", "entropy (HashMap / HashSet seeds)", "worker tier: master process (scripted, own framing codec), HTTP/1.1 probe clients (plain and over rustls), HTTP/1.1 backends"],
+            not_covered: vec!["worker tier: UDP listeners / frontends; pairs of unrelated configurations with different listener sets (every such pair carries the triggers of C06-W1); the difference applied while traffic is in flight; B -> A direction (model tier only)"],
         }
     }
 }
